@@ -36,6 +36,13 @@ def yields_of(g):
     return out
 
 
+def delivers_always(g, ys):
+    """Every normal path through the generator passes one of its yield sites (for a yield inside a loop: the head of that loop) - i.e. there is
+    no early return that ends the generator without having looked at the stream."""
+    pts = [yn.loops[-1] if yn.loops else yn for yn, _yx in ys]
+    return bool(pts) and g.exit not in g.reach([g.entry], avoid=pts, exc=False, include_start=True)
+
+
 def is_decode(t, inner):
     """t == inner.decode('utf8', 'backslashreplace')  (positional or errors= keyword)"""
     if t[0] != "call" or t[1] != ".decode" or not t[2] or t[2][0] != inner:
@@ -239,6 +246,7 @@ def _streaming_service(ctx, R, roles, T):
             R.check(t == G, "TERM-stream", q + "|raw", "decode=False: chunks yielded unchanged, in order", "with decode=False streaming yields %s, expected the chunks unchanged" % show(t), f.loc(yn.ast))
         else:
             R.fail("TERM-stream", q + "|" + norm_stmt(yn.ast), "a yield of _streaming_service is not governed by the decode flag", f.loc(yn.ast))
+    R.check(delivers_always(g, ys), "TERM-stream", q + "|always", "the generator ends only after delivering the stream", "_streaming_service can end without yielding from the stream (an early return): the output is silently empty", f.loc())
     R.check(seen == {"decode", "raw"}, "TERM-stream", q + "|modes", "both decode modes yield", "_streaming_service does not yield in both decode modes (%s)" % sorted(seen), f.loc())
 
 
@@ -257,6 +265,10 @@ def _wrappers(ctx, R, roles, T):
             R.fail("TERM-wrap", sub + "|calls", "%s must call %s exactly once, found %d sites" % (name, target.name, len(sites)), f.loc())
             continue
         n, c = sites[0]
+        if name == "streaming_shell":
+            R.check(delivers_always(g, yields_of(g)), "TERM-wrap", sub + "|always", "ends only after delivering the stream", "%s can end without yielding from the service (an early return): the output is silently empty" % name, f.loc())
+        else:
+            R.check(g.dominates([n], g.exit, exc=False), "TERM-wrap", sub + "|always", "returns normally only after running the service", "%s can return normally without running the service (an early return)" % name, f.loc())
         b = ctx.cg.site(c).bind(target)
         st = T.term(f, n, b["service"]) if "service" in b else None
         R.check(st == ("c", service), "TERM-wrap", sub + "|service", "service name %r" % service, "%s opens service %s, expected %r" % (name, show(st) if st else "?", service), f.loc(n.ast))
@@ -294,6 +306,8 @@ def _wrappers(ctx, R, roles, T):
         R.fail("TERM-wrap", f.qualname + "|shape", "_streaming_command must open once and drain once", f.loc())
         return
     on, oc = opens[0]
+    R.check(g.dominates([on], g.exit, exc=False) and delivers_always(g, yields_of(g)), "TERM-wrap", f.qualname + "|always", "ends only after opening the stream and draining it",
+            "_streaming_command can end without opening / draining the stream (an early return): the output is silently empty", f.loc())
     b = ctx.cg.site(oc).bind(dev["_open"])
     dt = T.term(f, on, b.get("destination")) if b.get("destination") is not None else None
     R.check(dt == ("CONCAT", ("p", "service"), ("c", b":"), ("p", "command")), "TERM-wrap", f.qualname + "|destination", "destination = service + b':' + command",
